@@ -275,7 +275,9 @@ fn collapse_edge_to_base<T: CoordsFloat>(
     let tmp_vertex = map.read_vertex(t, l_vid)?;
     let tmp_anchor = map.read_attribute::<VertexAnchor>(t, l_vid)?;
 
+    let mut b2b1r = NULL_DART_ID;
     if r != NULL_DART_ID {
+        b2b1r = map.beta_transac::<2>(t, b1r)?; // save this before right cell collapse
         try_or_coerce!(map.unsew::<2>(t, l), EdgeCollapseError);
         try_or_coerce!(
             collapse_halfcell_to_base(t, map, (b1r, r, b0r)),
@@ -289,10 +291,19 @@ fn collapse_edge_to_base<T: CoordsFloat>(
         EdgeCollapseError
     );
 
+    // a surviving dart that starts at the resulting vertex
     let new_vid = if b2b0l != NULL_DART_ID {
         map.vertex_id_transac(t, b2b0l)?
-    } else if r != NULL_DART_ID {
+    } else if !map.is_unused_transac(t, b0l)? {
+        // b0l took the place of its neighbour's dart, it ends at the vertex
+        let d = map.beta_transac::<1>(t, b0l)?;
+        map.vertex_id_transac(t, d)?
+    } else if r != NULL_DART_ID && !map.is_unused_transac(t, b1r)? {
         map.vertex_id_transac(t, b1r)?
+    } else if b2b1r != NULL_DART_ID {
+        // the right cell disappeared altogether; the cell across b1r ends at the vertex
+        let d = map.beta_transac::<1>(t, b2b1r)?;
+        map.vertex_id_transac(t, d)?
     } else {
         // this can happen from a valid configuration, so we handle it
         NULL_VERTEX_ID
